@@ -125,14 +125,22 @@ CLAIMS["C08"] = ("Props/C08 (Lean 4): a multi-branch step of a thread-spawning m
                  "nested spawn macros to depth 3.",
                  NOTE_COMMON + "That the OS actually runs the threads, and the meaning of std::thread::Builder::spawn/join, are modelled (Sem), "
                  "validated by K2, not derived from std.", "Lean 4 proof over a schedule relation (barrier, all interleavings) + refinement; K2 gated executions", "§7 C08")
-CLAIMS["C09"] = ("Props/C09 (Lean 4), partial: for every program the async expansion is a single Box::pin(async move {…}) containing every user "
-                 "token (laziness, syntactically); steps are joined by one P::join!/try_join! or awaited in place; task-spawning wraps each "
-                 "operand of a multi-branch step into __spawn_tokio(Box::pin(chain)); no polling logic of its own. Progress, wake-up routing "
-                 "and completion are properties of async/.await, futures::join! and tokio that are NOT modelled in Lean: K2-async observes them "
-                 "on a deterministic executor (counting root waker, manually opened gates: every opening order drawn, batches, spurious polls) "
-                 "and on a current-thread tokio runtime for the task-spawning macros.",
-                 NOTE_COMMON + "No Lean model of the async semantics: the run-time clauses are observed (K2-async), not proved.",
-                 "Lean 4 shape theorems (partial) + K2-async on a deterministic executor", "§7 C09")
+CLAIMS["C09"] = ("Props/C09 (Lean 4), three layers. (1) Shape, every program: the async expansion is a single Box::pin(async move {…}) containing "
+                 "every user token; steps are joined by one P::join!/try_join! or awaited in place; task-spawning wraps operands into "
+                 "__spawn_tokio(Box::pin(chain)). (2) sync_refines now covers join_async!/join_async_spawn!: under the canonical schedule the "
+                 "generated code is the reference step loop. (3) A poll-level model (Async.lean: tasks with gated pending points; join! = poll "
+                 "every unfinished operand once in order, try_join! returns at the first finished failure; the async block = steps in sequence), "
+                 "built from the parsed program (AsyncSpec.lean), with theorems for EVERY schedule of gate openings (any order, batches, spurious "
+                 "polls): nothing before the first poll; each operand advances exactly as far as its own gates allow (a pending branch never "
+                 "blocks a ready sibling); a pending future waits on ≥1 gate and only on closed gates (no lost wake-up); canonical run of the plan "
+                 "= reference loop; and for join_async! without handler/panics: once polled with all gates open the future is complete with the "
+                 "generated code's result, having emitted the generated code's events exactly once each (join_async_every_schedule). Tie: K2-async "
+                 "compares the model's predicted events PER POLL with the real future on a deterministic executor under random gate schedules "
+                 "(non-spawn kinds, exact), a property-level oracle for the tokio kinds, and K1.",
+                 NOTE_COMMON + "Trusted for the run-time clauses: that rustc's async/.await and futures' join!/try_join! behave like Plan.poll/pollStep "
+                 "(validated per poll by K2-async on every run). Partial: the every-schedule theorem covers the non-try async macros; for try_join! plans "
+                 "only the per-poll theorems hold (which failing branch wins is schedule dependent); tokio's scheduler is outside the model.",
+                 "Lean 4 refinement (canonical schedule) + poll-level scheduling model with ∀-schedule theorems + per-poll K2-async correspondence", "§7 C09")
 CLAIMS["C10"] = ("Props/C10 (Lean 4) + refinement: in the reference loop every reached atom runs exactly once per step (capture events of a step "
                  "are pairwise distinct and exactly the hoisted operands; one chain per active branch; handler defined once, called at most "
                  "once), and the generated code has exactly these events (sync_refines). Token level (nothing dropped/duplicated in the "
